@@ -392,9 +392,20 @@ type replayOutcome struct {
 }
 
 // replay runs the real function on the model's inputs and evaluates every ensures clause.
-func (w *World) replay(res *OblResult, prop string) *replayOutcome {
+func (w *World) replay(res *OblResult, prop string) (out *replayOutcome) {
 	o := res.O
-	out := &replayOutcome{File: ReplayFile{Property: prop, Obligation: o.Name, Function: o.Func, Source: o.Src, Solver: res.R.Solver, Status: res.R.Status, SMTFile: res.R.File}}
+	out = &replayOutcome{File: ReplayFile{Property: prop, Obligation: o.Name, Function: o.Func, Source: o.Src, Solver: res.R.Solver, Status: res.R.Status, SMTFile: res.R.File}}
+	defer func() {
+		// the replay harness builds Go values from the model; an input of a kind it cannot build (strings, objects) must not
+		// take the check down: the violation is then reported without a replayed input
+		if r := recover(); r != nil {
+			out.Confirmed = false
+			out.Verdict = "not-confirmed"
+			out.Detail = fmt.Sprintf("the solver has a model but the replay harness cannot build this input (%v)", r)
+			out.File.Verdict = out.Verdict
+			out.File.Detail = out.Detail
+		}
+	}()
 	out.File.SolverOut = firstLines(res.R.Output, 12)
 	if res.R.Status != "sat" {
 		out.Verdict = "no-model"
